@@ -84,6 +84,11 @@ func (u *Unit) checkInvariants(st *State, ls *LoopSpec, n int, phase string, bin
 	if ls == nil {
 		return
 	}
+	if phase == "keep" && len(ls.Invariants) > 0 && !u.inCommute && len(u.inlineStack) == 0 {
+		// vacuity guard: the end of the body of a loop that carries an invariant is reachable (otherwise the
+		// "keep" obligations hold for no reason)
+		u.cover(st, fmt.Sprintf("cover#loop#%d", n), fmt.Sprintf("the end of the body of loop %d is reachable", n))
+	}
 	for k, inv := range ls.Invariants {
 		g := u.evalClause(inv, st, u.entry, u.localBindings(inv, st, bind), nil)
 		u.oblige(st, fmt.Sprintf("loop#%d#inv#%d#%s", n, k+1, phase), "inv-"+phase, g, u.clauseProps(inv), inv, "loop invariant ("+phase+"): "+inv.Text, node)
